@@ -123,8 +123,8 @@ func (u *upstream) String() string { return "fake" }
 
 func classGet(c *desync.Chunk, err error, id int) string {
 	if err != nil {
-		var m desync.ChunkMissing
-		if errors.As(err, &m) {
+		// by dynamic type, as desync's consumers (router, cache, failover group, handlers) recognise it
+		if _, ok := err.(desync.ChunkMissing); ok {
 			return "missing"
 		}
 		return "error"
